@@ -262,7 +262,8 @@ mod repr {
         // make sure lhs > rhs
         let swapped = match cmp::cmp_in_place(&lhs, &rhs) {
             Ordering::Greater => false,
-            Ordering::Equal => return (Repr::from_buffer(lhs), Repr::one(), Repr::zero()),
+            // same coefficients as the Euclidean algorithm (and the word-sized paths) produce
+            Ordering::Equal => return (Repr::from_buffer(lhs), Repr::zero(), Repr::one()),
             Ordering::Less => {
                 core::mem::swap(&mut lhs, &mut rhs);
                 true
